@@ -659,7 +659,18 @@ namespace xsimd
         template <size_t N, class A>
         XSIMD_INLINE batch<uint16_t, A> rotate_left(batch<uint16_t, A> const& self, requires_arch<avx2>) noexcept
         {
-            return _mm256_alignr_epi8(self, self, N);
+            // alignr counts bytes and works inside each 128-bit lane: feed it the register with its
+            // two lanes exchanged, so that the bytes leaving one lane enter the other
+            constexpr size_t bytes = (N % batch<uint16_t, A>::size) * sizeof(uint16_t);
+            __m256i swapped = _mm256_permute2x128_si256(self, self, 0x01);
+            XSIMD_IF_CONSTEXPR(bytes < 16)
+            {
+                return _mm256_alignr_epi8(swapped, self, bytes % 16);
+            }
+            else
+            {
+                return _mm256_alignr_epi8(self, swapped, bytes % 16);
+            }
         }
         template <size_t N, class A>
         XSIMD_INLINE batch<int16_t, A> rotate_left(batch<int16_t, A> const& self, requires_arch<avx2>) noexcept
